@@ -445,14 +445,35 @@ def run_item(args):
     plans = make_plans(item, R, rng, tier)
     out["plans"] = len(plans)
     seen_classes = set()
-    for plan in plans:
+    # All plans of one item share argv and input files: run them as forked children of one parked process (fork server in
+    # procsim.so; stdout/stderr are files there).  Every 8th plan still goes through a fresh exec with real pipes.
+    fs = None
+    if USE_FORKSERVER and len(plans) >= 4:
+        fs = proc.ForkServer(case)
+        out["forkserver_runs"] = 0
+    try:
+        return _run_plans(item, case, R, plans, fs, out, pr, nwrites_dest, seen_classes, rng)
+    finally:
+        if fs is not None:
+            fs.close()
+
+
+USE_FORKSERVER = os.environ.get("VERIF_NO_FORKSERVER", "") == ""
+
+
+def _run_plans(item, case, R, plans, fs, out, pr, nwrites_dest, seen_classes, rng):
+    for pi, plan in enumerate(plans):
         c = dict(case)
         c["plan"] = plan
         for p in plan:
             parts = p.split()
             k = "%s/%s/%s" % (parts[1], parts[2], parts[4] if parts[4] != "err" else "err:" + parts[5])
             out["configured"][k] = out["configured"].get(k, 0) + 1
-        res = proc.run_case(c)
+        if fs is not None and pi % 8 != 7:
+            res = fs.run(plan)
+            out["forkserver_runs"] += 1
+        else:
+            res = proc.run_case(c)
         out["runs"] += 1
         out["steps"] += len(res["events"])
         fired = proc.fired(res["events"])
@@ -473,6 +494,14 @@ def run_item(args):
                 if any(int(ev.get("nth", -2)) == lastw for ev in fired if ev.get("role") in ("dest", "stdout")):
                     pr["final_flush_fault_hit"] = pr.get("final_flush_fault_hit", 0) + 1
         v = judge_faulted(item, R, res)
+        if v and fs is not None and pi % 8 != 7:
+            # ground truth is a fresh exec with real pipes; a violation seen only under the fork server is a harness anomaly
+            res = proc.run_case(c)
+            out["runs"] += 1
+            v2 = judge_faulted(item, R, res)
+            if v2 != v:
+                out["forkserver_discrepancy"] = out.get("forkserver_discrepancy", 0) + 1
+            v = v2
         if v:
             plan = essential_plan(item, case, R, plan, v)
             c = dict(case)
